@@ -147,6 +147,7 @@ func runC02(e *Engine, tier Tier) *PropRun {
 			fmt.Sprintf("(and (<= (+ %s 1) %s) (<= %s %s))", entry, site, site, maxDepth))
 		edges = append(edges, &rankEdge{from: root.fn, to: callee, site: fmt.Sprintf("%s -> %s #%d (%s)", fnKey(root.fn), fnKey(callee), k, e.posString(ins.Pos())), guardOb: g})
 	}
+	e.prepareExempt("C02", recFns, opts)
 	rs := e.verifyAll(recFns, opts, nil)
 	// size and token limits: the contracts of the two tokenizer entry points
 	var lim []*ssa.Function
